@@ -49,10 +49,16 @@ def peers(tier):
                      enc_c2s=['aes256-gcm@openssh.com', 'aes128-ctr'], mac_c2s=['hmac-sha2-512', 'umac-128@openssh.com'], banner=b'SSH-2.0-OpenSSH_9.6'),
         'asym-clean-s2c': dict(kex=['sntrup761x25519-sha512@openssh.com'], key=['ssh-ed25519'], enc=['aes256-gcm@openssh.com'], mac=['hmac-sha2-256-etm@openssh.com'],
                                enc_c2s=['arcfour', 'aes256-gcm@openssh.com'], mac_c2s=['hmac-md5'], banner=b'SSH-2.0-OpenSSH_9.6'),
+        # a fault confined to one probe connection (the reply to the first RSA probe has the wrong message type): the later probes
+        # of the family still measure the key, whatever the verbosity
+        'probe-fault-rsa1024': dict(kex=['curve25519-sha256'], key=['ssh-rsa', 'rsa-sha2-256', 'rsa-sha2-512'], enc=['aes256-ctr'], mac=['hmac-sha2-256'], banner=b'SSH-2.0-OpenSSH_8.0',
+                                    rsa_bits=1024, label='pf', faults={('pf', 1, 2): ('type', 1)}),
+        'probe-fault-rsa2048': dict(kex=['curve25519-sha256'], key=['rsa-sha2-512', 'rsa-sha2-256', 'ssh-ed25519'], enc=['aes256-ctr'], mac=['hmac-sha2-256'], banner=b'SSH-2.0-OpenSSH_8.0',
+                                    rsa_bits=2048, label='pf', faults={('pf', 1, 2): ('len', 2, 'huge31')}),
         'nonascii-banner': dict(kex=['curve25519-sha256'], key=['ssh-ed25519'], enc=['aes256-ctr'], mac=['hmac-sha2-256'], banner=b'SSH-2.0-Frob\x80SSH'),
     }
     if tier == 'quick':
-        keep = ['clean', 'warn-only', 'fail-mixed', 'terrapin', 'unknown', 'gss', 'rsa2048', 'gex1024', 'ssh1', 'header', 'cert', 'nonascii-banner', 'strict-kex-multi', 'client-role', 'asym', 'asym-clean-s2c']
+        keep = ['clean', 'warn-only', 'fail-mixed', 'terrapin', 'unknown', 'gss', 'rsa2048', 'gex1024', 'ssh1', 'header', 'cert', 'nonascii-banner', 'strict-kex-multi', 'client-role', 'asym', 'asym-clean-s2c', 'probe-fault-rsa1024', 'probe-fault-rsa2048']
         ps = {k: ps[k] for k in keep}
     else:
         # every severity mix of the database per category as extra peers
@@ -80,12 +86,19 @@ def make_server(spec):
     return P.Server(**spec)
 
 
+ZOO_OPTSETS = [(), ('-n',), ('-b',), ('-v', '-n'), ('-n', '-j'), ('-n', '-l', 'warn'), ('-jj', '-v'), ('-b', '-n', '-l', 'fail')]
+
+
 def run_opts(spec, opts, env=None):
+    if 'zoo' in spec:
+        from props import zoo
+        e = zoo.get(spec['zoo'])
+        return zoo.audit(e, list(opts) + (['-1'] if e['ssh1'] and not e['versions_differ'] else []))
     if spec.get('client_role'):
         sp = {k: v for k, v in spec.items() if k != 'client_role'}
         return H.client_audit(P.Client(**sp), opts=list(opts))
-    srv = make_server(spec)
-    return H.audit(srv, opts=list(opts) + ['--skip-rate-test'])
+    srv = make_server({k: v for k, v in spec.items() if k != 'faults'})
+    return H.audit(srv, opts=list(opts) + ['--skip-rate-test'], faults=spec.get('faults'))
 
 
 def text_findings(res, verbose):
@@ -105,13 +118,13 @@ def line_level(line):
     return {'fail': 2, 'warn': 1, 'good': 0, 'info': 0, 'head': 0}.get(c, 0)
 
 
-def check_peer(task, st):
+def check_peer(task, st, osets=None):
     pname, spec = task
     ref = run_opts(spec, ['-n'])
     ref_findings = text_findings(ref, False)
     st.execution(ref.world, outcome=(pname, ref.status), root=(pname, 'ref'))
     colour_ref = {}
-    for opts in optsets():
+    for opts in (osets or optsets()):
         r1 = run_opts(spec, opts)
         r2 = run_opts(spec, opts)
         st.execution(r1.world, outcome=(pname, r1.status, opts), root=(pname, opts), nontrivial=(pname, opts))
@@ -183,12 +196,22 @@ def check_peer(task, st):
                             continue
                         st.violation('raised-level-keeps-line-below-level:%s' % tag, dict(d, line=x[:200]))
                         break
-    st.sample({'peer': pname, 'option_sets': len(optsets())}, cap=6)
+    st.sample({'peer': pname, 'option_sets': len(osets or optsets())}, cap=6)
 
 
 def work(chunk, st):
     for task in chunk:
         check_peer(task, st)
+
+
+def work_zoo(chunk, st):
+    from props import zoo
+    for name in chunk:
+        e = zoo.get(name)
+        spec = {'zoo': name}
+        if e['ssh1']:
+            spec['ssh1'] = True
+        check_peer(('zoo:' + name, spec), st, ZOO_OPTSETS)
 
 
 SUB = r'''
@@ -232,19 +255,22 @@ def run(tier, seed):
     ps = peers(tier)
     st = par.pmap(work, list(ps.items()), chunk=1)
     hashseed_runs(tier, st)
+    from props import zoo
+    par.pmap(work_zoo, zoo.names(tier), stats=st, chunk=4)
     vcases = []
     osets = optsets()
     for pname, spec in ps.items():
         if spec.get('client_role'):
             continue
         for opts in H.pick(osets, seed + len(vcases), 2 if tier == 'quick' else 6):
-            vcases.append({'label': '%s %s' % (pname, opts), 'opts': list(opts), 'make': (lambda spec=spec: make_server(spec))})
+            vcases.append({'label': '%s %s' % (pname, opts), 'opts': list(opts), 'make': (lambda spec=spec: make_server({k: v for k, v in spec.items() if k != 'faults'})),
+                           'faults': dict(spec.get('faults') or {})})
     validated = H.validate_traces(vcases, st)
     return evidence.finish(
         PID, tier, seed, st, t0,
         rule='%d peers covering every severity mix (clean, warn-only, failures, Terrapin, unknown, gss, small RSA, small/OpenSSH GEX, SSH-1, header, '
              'certificate, compression, non-ASCII banner%s) x all %d combinations of -b, -v, -n, -l {info,warn,fail}, {text,-j,-jj}, each run twice; '
-             'fresh interpreters under PYTHONHASHSEED 0/1/2/random for selected peers' % (len(ps), ', 24 database slices' if tier != 'quick' else '', len(optsets())),
+             'fresh interpreters under PYTHONHASHSEED 0/1/2/random for selected peers; the peers of props/zoo.py x %d option sets' % (len(ps), ', 24 database slices' if tier != 'quick' else '', len(optsets()), len(ZOO_OPTSETS)),
         assumptions=['with colours on, a line\'s level is read from its colour', 'JSON compared with text for names the database knows'],
         exhaustive=True, traces_validated=validated)
 
